@@ -32,6 +32,14 @@ Theorem C04_cookie_roundtrip : forall H ttl now_ns now_s t, (forall d, length (H
 Proof. exact cookie_roundtrip. Qed.
 Print Assumptions C04_cookie_roundtrip.
 
+(* what Validate checks, exactly, with no premise at all: the cookie is tag(32) | timestamp(4), the tag is
+   H of (mac | svlan | cvlan | those timestamp bytes), and the timestamp is within the lifetime *)
+Theorem C04_validate_accepts_iff : forall H ttl now c mac sv cv, validate H ttl now c (mac, sv, cv) = true <->
+  exists sig a b c4 d, c = sig ++ [a; b; c4; d] /\ length sig = 32%nat /\
+    sig = H (enc_val mac sv cv [a; b; c4; d]) /\ (now - Z.of_N (be32 a b c4 d) * ns_per_s <= ttl)%Z.
+Proof. exact validate_accepts_iff. Qed.
+Print Assumptions C04_validate_accepts_iff.
+
 (* soundness under H_mac_unforgeable (first premise): an accepted cookie is one this BNG issued
    for the same MAC and VLAN tags, and it is within its lifetime *)
 Theorem C04_cookie_sound : forall H ttl now c t issued,
@@ -127,15 +135,26 @@ Theorem C04_padr_expired_no_state : forall v e s t p tg a b c4 d s' r,
 Proof. exact padr_expired_no_state. Qed.
 Print Assumptions C04_padr_expired_no_state.
 
-(* composite: a session is created only for a cookie this BNG issued, within its lifetime, for
-   the same MAC address and VLAN tags *)
+(* composite: a session is created only for a cookie this BNG issued, within its lifetime, for the same MAC
+   address and VLAN tags.  Premise 1 is H_mac_unforgeable for the ONE tag this PADR presents (the first 32
+   bytes of the AC-Cookie ParseTags extracts from it): if that tag is H of some message, the message is one
+   Generate has MACed.  Nothing is assumed about other byte strings. *)
 Theorem C04_admission : forall v e s t p s' sid uid issued,
-  (forall c d, firstn 32 c = e_H e d -> In d (map enc_issue issued)) ->
+  (forall tg d, parse_tags p = Ok tg -> firstn 32 (t_cookie tg) = e_H e d -> In d (map enc_issue issued)) ->
   Forall wf_issue issued -> wf_tuple t ->
   step v e s (PADR t p) = Some (s', OPads sid uid) ->
   exists ts, In (t, ts) issued /\ (e_now_ns e - Z.of_N ts * ns_per_s <= e_ttl e)%Z.
 Proof. exact admission. Qed.
 Print Assumptions C04_admission.
+
+Example C04_admission_nonvacuous :
+  (forall tg d, parse_tags padrOne = Ok tg -> firstn 32 (t_cookie tg) = oneH d -> In d (map enc_issue [(tA, 1000)])) /\
+  Forall wf_issue [(tA, 1000)] /\ wf_tuple tA /\
+  (exists s', step Repaired envOne st0 (PADR tA padrOne) = Some (s', OPads 1 0)) /\
+  oneH (enc_issue (tB, 1000)) <> firstn 32 (generate oneH 1000 tA) /\
+  (exists s', step Repaired envOne st0 (PADR tB padrOne) = Some (s', ONone)).
+Proof. exact admission_nonvacuous. Qed.
+Print Assumptions C04_admission_nonvacuous.
 
 (* every session object that becomes live comes from an answered PADR or from a restore *)
 Theorem C04_sessions_only_from_padr : forall v e s o s' r x, step v e s o = Some (s', r) -> live s' x ->
